@@ -37,7 +37,7 @@ func NewWorker(prog *ssa.Program, opt Options) (*Worker, error) {
 		sizes:    &types.StdSizes{WordSize: 8, MaxAlign: 8},
 		inited:   make(map[*ssa.Package]bool),
 		initing:  make(map[*ssa.Package]bool),
-		fnNames:  make(map[*ssa.Function]string),
+		fnInfos:  make(map[*ssa.Function]*fnInfo),
 		maxSteps: opt.MaxSteps,
 		params:   opt.Params,
 		mapOrder: opt.MapOrder,
